@@ -38,6 +38,12 @@ package main
 //                 BEGINFILE) and pattern rules that push, store ahead / behind / past
 //                 the end, reassign `$`, pop, popfirst or re-bind the alias; the runs
 //                 are those of the array as it was when the walk began (c02WRun)
+//   begin-before-live-input  the real binary with a stdin pipe / FIFO whose writer has sent 0, 1, 2 bytes and
+//                 stays open: the BEGIN output is there (and a run that ends in BEGIN has ended)
+//                 before a further byte or end of input arrives
+//   literal-file-names  file arguments whose names contain [ ] ? * \ { } ~ $ blanks , ; = or begin with
+//                 dashes, next to the sibling files a pattern / list / option reading would pick:
+//                 the trace names exactly the files of the command line, in its order
 
 import (
 	"encoding/json"
@@ -2770,5 +2776,390 @@ func init() {
 				}
 			}
 		},
+	})
+}
+
+// ---------------------------------------------------------------- begin-before-live-input
+//
+// BEGIN rules run before ANY input is read, and `exit` in BEGIN ends the run at once: observable
+// only while the input is still alive. The real binary gets a stdin pipe / a FIFO file argument
+// (alone, after a regular file, /dev/stdin by name) whose writer has sent 0, 1, 2 (or, as control,
+// 3 and more) bytes and then waits with the stream open. What stdout must hold at that moment is
+// what the library prints when its reader fails right after those bytes (nothing that needs more
+// input, no ENDFILE, no END), and it begins with the BEGIN output known by construction.
+
+type c02LiveProg struct {
+	text  string
+	begin string // what the BEGIN rules print (known by construction)
+	exits bool   // the run ends in BEGIN (exit or a runtime error): the binary must end without further input
+	code  string // expected exit status of an `exits` program
+}
+
+var c02LiveProgs = []c02LiveProg{
+	{"BEGIN { print \"begin\"; exit }", "begin\n", true, "0"},
+	{"BEGIN { print \"begin\"; exit }\n{ print \"no\", $ }\nEND { print \"END\", 1 }", "begin\n", true, "0"},
+	{"BEGIN { exit }\n{ print \"no\" }", "", true, "0"},
+	{"BEGIN { print \"b1\" }\nBEGIN { print \"b2\"; x = 1 / 0 }\n{ print \"no\" }", "b1\nb2\n", true, "1"},
+	{"function f() { print \"in f\"; exit }\nBEGIN { f() }\n{ print \"no\" }", "in f\n", true, "0"},
+	{"BEGIN { print \"begin\" }\n{ print \"got\", $; exit }", "begin\n", false, ""},
+	{"BEGIN { print \"begin\" }\nBEGINFILE { print \"bf\", $file }\n{ print \"got\", $ }\nENDFILE { print \"ef\" }\nEND { print \"END\", 1 }", "begin\n", false, ""},
+	{"BEGIN { print \"only\" }", "only\n", false, ""},
+	{"{ print \"got\", $ }\nBEGIN { n = 3; print \"late BEGIN\", n }\nBEGIN { print \"second\" }", "late BEGIN 3\nsecond\n", false, ""},
+	{"BEGIN { $ = [1]; print \"begin\", $ }\n{ print \"got\", $ }", "begin [1]\n", false, ""},
+}
+
+// the bytes sent before the wait, and a rest that completes them
+var c02LiveFirsts = [][2]string{
+	{"", "[1, 2]\n"}, {"", ""}, {"7", "\n8\n"}, {"7", "7"}, {"[", "1]\n"}, {" ", "3 "}, {"\"", "s\" 4"}, {"t", "rue"}, {"x", ""}, {"\n", "{}"},
+	{"7\n", "8\n"}, {"7 ", ""}, {"[]", "[2]"}, {"{}", "\n"}, {"\"\"", "1"}, {"12", "3 4"}, {"\n\n", "5"}, {"[1", "]"}, {"-1", " 2"}, {"1x", ""},
+	{"[1]", "\n[2]\n"}, {"7\n8", "9\n"}, {"nul", "l 1"}, {"{\"a\":1}", "{\"a\":"}, {"[1]\n[2]\n", "[3]\n"}, {"\xef\xbb\xbf", "[1]"}, {"\xef\xbb", "\xbf7"},
+}
+
+func c02GenLive(r *rand.Rand, tier string, emit func(Case)) {
+	if os.Getenv("JQAWK_BIN") == "" {
+		emit(Case{ID: "no-binary", Req: "cli - - - -", ImplOnly: true, Oracle: c14Basic,
+			Meta: map[string]string{"problem": "env JQAWK_BIN is not set; this family runs the real binary"}})
+		return
+	}
+	modes := []string{"stdin", "fifo", "file-then-fifo", "devstdin", "fifo-then-file"}
+	regular := CliFile{Name: "first.json", Data: []byte("[10, 20]\n{\"a\": 1}\n")}
+	const waitMs = 3000
+	n := 0
+	one := func(p c02LiveProg, first, rest []byte, mode string) {
+		n++
+		whole := append(append([]byte{}, first...), rest...)
+		// what the library prints when the input ends in a read failure right after `first`
+		lib := []File{{Name: "in.fifo", Data: first, IOErr: true}}
+		var argv []string
+		var plainReq, stagedReq, modelReq string
+		wait := func(want string) int {
+			if p.exits || want == "" {
+				return len(want) + 1000 // wait for the END OF THE PROCESS (or the time limit)
+			}
+			return len(want)
+		}
+		switch mode {
+		case "stdin":
+			lib[0].Name = "<stdin>"
+			argv = []string{p.text}
+			plainReq = CliReq(argv, whole, true, nil, "")
+		case "devstdin":
+			lib[0].Name = "/dev/stdin"
+			argv = []string{p.text, "/dev/stdin"}
+			plainReq = CliReq(argv, whole, true, nil, "")
+			modelReq = CliReq(argv, nil, false, []CliFile{{Name: "/dev/stdin", Data: whole}}, "")
+		case "fifo":
+			argv = []string{p.text, "in.fifo"}
+			plainReq = CliReq(argv, nil, false, []CliFile{{Name: "in.fifo", Data: whole}}, "")
+		case "file-then-fifo":
+			lib = append([]File{{Name: regular.Name, Data: regular.Data}}, lib...)
+			argv = []string{p.text, regular.Name, "in.fifo"}
+			plainReq = CliReq(argv, nil, false, []CliFile{regular, {Name: "in.fifo", Data: whole}}, "")
+		case "fifo-then-file":
+			argv = []string{p.text, "in.fifo", regular.Name}
+			plainReq = CliReq(argv, nil, false, []CliFile{{Name: "in.fifo", Data: whole}, regular}, "")
+		}
+		_, want := c03InProcOut(p.text, lib)
+		w := wait(want)
+		switch mode {
+		case "stdin", "devstdin":
+			stagedReq = CliStagedReq(argv, "stdin", first, rest, nil, w)
+		case "fifo":
+			stagedReq = CliStagedReq(argv, "fifo", nil, nil, []CliFile{{Name: "in.fifo", Fifo: true, Data: first, Rest: rest}}, w)
+		case "file-then-fifo":
+			stagedReq = CliStagedReq(argv, "fifo", nil, nil, []CliFile{regular, {Name: "in.fifo", Fifo: true, Data: first, Rest: rest}}, w)
+		case "fifo-then-file":
+			stagedReq = CliStagedReq(argv, "fifo", nil, nil, []CliFile{{Name: "in.fifo", Fifo: true, Data: first, Rest: rest}, regular}, w)
+		}
+		stagedReq += fmt.Sprintf(",d=%d", waitMs)
+		if modelReq == "" {
+			modelReq = plainReq
+		}
+		g := fmt.Sprintf("live-%d", n)
+		meta := func(variant string) map[string]string {
+			return metaProg(p.text, "argv", strings.Join(argv, " ␣ "), "input kind", mode, "sent before the wait", strconv.Quote(string(first)), "sent after the wait", strconv.Quote(string(rest)),
+				"stdout expected while the input is still open", strconv.Quote(want), "variant", variant, "row", mode, "col", fmt.Sprintf("%d bytes sent", min(len(first), 3)))
+		}
+		fields := []string{"exit", "out", "err"}
+		emit(Case{ID: g + "/plain", Req: plainReq, ModelReq: modelReq, Fields: fields, Group: g, Meta: meta("all bytes at once, then end of input: reference of the group"),
+			NonTrivial: func(i Resp) bool { return i["exit"] != "" && i["out"] != "-" }})
+		begin, exits, code := p.begin, p.exits, p.code
+		emit(Case{ID: g + "/live", Req: stagedReq, ModelReq: modelReq, Fields: fields, Group: g, GroupFields: []string{"exit", "out", "stderr"},
+			Meta:       meta(fmt.Sprintf("the first part, then a pause with the stream open (at most %d ms), then the rest", waitMs)),
+			NonTrivial: func(i Resp) bool { return i["early"] != "" && i["early"] != "-" },
+			Oracle: func(i Resp) string {
+				switch i["class"] {
+				case "badrequest", "crash", "garbled", "nobinary":
+					return "harness problem running the binary: " + i.String()
+				}
+				if i["exit"] == "" {
+					return ""
+				}
+				got := string(i.Bytes("early"))
+				if !strings.HasPrefix(got, begin) {
+					return fmt.Sprintf("C02: BEGIN rules run before any input is read: with %q sent and the input still open, stdout held %q after %s ms; the BEGIN rules print %q", first, got, i["earlyms"], begin)
+				}
+				if got != want {
+					return fmt.Sprintf("while the input was still open and only %q had been sent, stdout held %q after %s ms; what can run without more input prints %q", first, got, i["earlyms"], want)
+				}
+				if exits {
+					if ms, err := strconv.Atoi(i["earlyms"]); err != nil || ms >= waitMs {
+						return fmt.Sprintf("C02: the run ends in BEGIN (exit / error) without reading input, but the binary was still running %s ms later, with its input open and only %q sent", i["earlyms"], first)
+					}
+					if i["exit"] != code || string(i.Bytes("out")) != begin {
+						return fmt.Sprintf("C02: the run ends in BEGIN: expected status %s and stdout %q, got status %s and %q", code, begin, i["exit"], i.Bytes("out"))
+					}
+				}
+				return ""
+			}})
+	}
+	for pi, p := range c02LiveProgs {
+		for fi, f := range c02LiveFirsts {
+			for mi, mode := range modes {
+				// quick: one input kind per (program, first part), rotating; every kind with nothing sent
+				if tier != "thorough" && mi != (pi+fi)%len(modes) && !(fi == 0 && pi < 6) {
+					continue
+				}
+				one(p, []byte(f[0]), []byte(f[1]), mode)
+			}
+		}
+	}
+	// random first parts: a prefix of a random stream
+	for k := tierN(tier, 30, 1500); k > 0; k-- {
+		data := c03Stream(r, 1+r.Intn(3), true)
+		cut := r.Intn(min(len(data), 4) + 1)
+		if chance(r, 0.2) {
+			cut = r.Intn(len(data) + 1)
+		}
+		one(pick(r, c02LiveProgs), data[:cut], data[cut:], pick(r, modes))
+	}
+}
+
+func init() {
+	register(Family{
+		Name: "begin-before-live-input", Prop: "C02",
+		Rule: "the real binary with an input that is ALIVE: a stdin pipe, a FIFO file argument (alone, after and before a regular file) or /dev/stdin by name, whose writer has sent 0, 1, 2 bytes (a digit, a blank, an opening bracket or quote, a newline, `7\\n`, `[]`, `{}`, `\"\"`, two thirds of a byte order mark, ...; 3 and more bytes as control) and keeps the stream open. 10 programs: BEGIN with exit (alone, with rules and END behind it, silent, inside a function), a runtime error in the second BEGIN rule, BEGIN plus rules (with exit at the first value; BEGINFILE / ENDFILE / END; BEGIN rules written after the pattern rule; BEGIN assigning $), BEGIN only. The harness waits until stdout holds what the LIBRARY prints when its reader fails right after the bytes sent (or the process has ended, or 3 s have passed), records stdout, then sends the rest and closes. Oracle (C02): that early stdout begins with the BEGIN output known by construction and equals the library's; a run that ends in BEGIN has ended (status 0, or 1 for the error; stdout = the BEGIN output) before the wait is over, i.e. without a further byte and without end of input. Group: final exit / stdout / stderr equal to the run on the complete bytes at once, which is compared with the model of the wrapper.",
+		Gen:  c02GenLive,
+	})
+}
+
+// ---------------------------------------------------------------- literal-file-names
+//
+// The files are processed in command-line order, each one exactly as named, and $file names it.
+// A file name is any byte string without '/' and NUL: names that some layer could take for a
+// pattern, a list, an option, an expansion or a quoted word -- next to sibling files that such a
+// reading would pick instead (each file holds different numbers, so reading the wrong file, an
+// extra file, or the right files in another order shows in the trace).
+
+// a name and the siblings a non-literal reading of it leads to
+var c02OddNames = []struct {
+	name string
+	sibs []string
+}{
+	{"log[1].json", []string{"log1.json"}}, {"[ab].json", []string{"a.json", "b.json"}}, {"[a-c]x.json", []string{"ax.json", "bx.json"}}, {"[!a].json", []string{"b.json", "!.json"}},
+	{"[^a].json", []string{"b.json", "^.json"}}, {"what?.json", []string{"whatX.json", "what1.json"}}, {"?.json", []string{"a.json", "b.json"}}, {"*.json", []string{"a.json", "zz.json"}},
+	{"*", []string{"a.json", "b"}}, {"a*.json", []string{"a.json", "ab.json"}}, {"a\\*.json", []string{"a*.json", "ab.json"}}, {"a\\b.json", []string{"ab.json"}}, {"\\a.json", []string{"a.json"}},
+	{"{a,b}.json", []string{"a.json", "b.json"}}, {"~", []string{"root"}}, {"~a.json", []string{"a.json"}}, {"$HOME", []string{"root"}}, {"$x.json", []string{".json", "x.json"}}, {"${x}", []string{"x"}},
+	{"a b.json", []string{"a", "b.json"}}, {"a,b.json", []string{"a", "b.json"}}, {"a;b.json", []string{"a", "b.json"}}, {"k=v.json", []string{"k", "v.json"}}, {"a\tb.json", []string{"a", "b.json"}},
+	{"a\nb.json", []string{"a", "b.json"}}, {"-x.json", []string{"x.json"}}, {"--", []string{"a.json"}}, {"-", []string{"a.json"}}, {"-r", []string{"$"}}, {"-f", []string{"prog.jqawk"}}, {"-o", []string{"out.json"}},
+	{"--x.json", []string{"x.json"}}, {"-r=$.a", []string{"$.a"}}, {"a.json ", []string{"a.json"}}, {" a.json", []string{"a.json"}}, {"'a.json'", []string{"a.json"}}, {"\"a.json\"", []string{"a.json"}},
+	{"[", []string{"a.json"}}, {"]", []string{"a.json"}}, {"[]", []string{"a.json"}}, {"[a", []string{"a"}}, {"a]", []string{"a"}}, {"[a]", []string{"a"}}, {"[[]", []string{"["}}, {"**", []string{"a.json", "b"}},
+	{"a?", []string{"ab", "a"}}, {"<stdin>", []string{"stdin"}}, {"%41.json", []string{"A.json"}}, {"a.json?", []string{"a.json", "a.jsonl"}}, {"x[0-9]*.json", []string{"x1.json", "x12.json"}},
+	{"é?.json", []string{"éa.json"}}, {"?", []string{"a", "b"}}, {"\\", []string{"a"}}, {"\\\\", []string{"\\"}}, {"a\\", []string{"a"}}, {"#a.json", []string{"a.json"}}, {"!a", []string{"a"}}, {"`a`", []string{"a"}},
+	{"a|b", []string{"a", "b"}}, {"a&b", []string{"a", "b"}}, {"(a)", []string{"a"}}, {"a>b", []string{"a", "b"}}, {"@a.json", []string{"a.json"}}, {"a:b", []string{"a", "b"}}, {"..json", []string{"a.json"}}, {"...", []string{"a"}},
+}
+
+const c02NamesProg = "BEGIN { print \"B\" }\nBEGINFILE { print \"BF\", $file }\n{ print \"P\", $file, $index, $ }\nENDFILE { print \"EF\", $file }\nEND { print \"E\" }"
+
+func c02GenNames(r *rand.Rand, tier string, emit func(Case)) {
+	if os.Getenv("JQAWK_BIN") == "" {
+		emit(Case{ID: "no-binary", Req: "cli - - - -", ImplOnly: true, Oracle: c14Basic,
+			Meta: map[string]string{"problem": "env JQAWK_BIN is not set; this family runs the real binary"}})
+		return
+	}
+	n := 0
+	one := func(odd []int, order string, via string, missing bool, withStdin bool) {
+		n++
+		// the directory: the odd names, their siblings, two ordinary files
+		var dirNames []string
+		seen := map[string]bool{}
+		add := func(s string) {
+			if !seen[s] {
+				seen[s] = true
+				dirNames = append(dirNames, s)
+			}
+		}
+		for _, k := range odd {
+			add(c02OddNames[k].name)
+			for _, s := range c02OddNames[k].sibs {
+				add(s)
+			}
+		}
+		add("a.json")
+		add("zz.json")
+		if via == "-f" {
+			add("prog.jqawk") // holds the program; never an input unless named
+		}
+		r.Shuffle(len(dirNames), func(a, b int) { dirNames[a], dirNames[b] = dirNames[b], dirNames[a] })
+		// what each file holds: 1-2 arrays of 0-2 numbers that tell the files apart
+		type content struct {
+			data  []byte
+			trace func(name string) string
+		}
+		contents := map[string]content{}
+		var disk []CliFile
+		gone := ""
+		if missing {
+			gone = c02OddNames[odd[0]].name
+		}
+		for k, name := range dirNames {
+			if name == "prog.jqawk" {
+				disk = append(disk, CliFile{Name: name, Data: []byte(c02NamesProg)})
+				contents[name] = content{nil, nil}
+				continue
+			}
+			var sb strings.Builder
+			var arrays [][]int
+			for a := 0; a < 1+(k+n)%2; a++ {
+				var arr []int
+				for e := 0; e < (k+a+n)%3; e++ {
+					arr = append(arr, (k+1)*100+a*10+e)
+				}
+				arrays = append(arrays, arr)
+				parts := make([]string, len(arr))
+				for i, v := range arr {
+					parts[i] = strconv.Itoa(v)
+				}
+				sb.WriteString("[" + strings.Join(parts, ", ") + "]\n")
+			}
+			arrs := arrays
+			contents[name] = content{[]byte(sb.String()), func(nm string) string {
+				var t strings.Builder
+				for _, arr := range arrs {
+					t.WriteString("BF " + nm + "\n")
+					for i, v := range arr {
+						fmt.Fprintf(&t, "P %s %d %d\n", nm, i, v)
+					}
+					t.WriteString("EF " + nm + "\n")
+				}
+				return t.String()
+			}}
+			if name != gone {
+				disk = append(disk, CliFile{Name: name, Data: []byte(sb.String())})
+			}
+		}
+		// the command line
+		var names []string
+		oddNames := make([]string, len(odd))
+		for i, k := range odd {
+			oddNames[i] = c02OddNames[k].name
+		}
+		sib := func(k int) string { return pick(r, c02OddNames[k].sibs) }
+		switch order {
+		case "alone":
+			names = oddNames[:1]
+		case "odd-then-sibling":
+			names = []string{oddNames[0], sib(odd[0])}
+		case "sibling-then-odd":
+			names = []string{sib(odd[0]), oddNames[0]}
+		case "between":
+			names = []string{"zz.json", oddNames[0], "a.json"}
+		case "twice":
+			names = []string{oddNames[0], "a.json", oddNames[0]}
+		case "all-odd":
+			names = append([]string{}, oddNames...)
+		case "all-odd-reversed":
+			for i := len(oddNames) - 1; i >= 0; i-- {
+				names = append(names, oddNames[i])
+			}
+			names = append(names, sib(odd[0]))
+		default: // random
+			for k := 1 + r.Intn(4); k > 0; k-- {
+				names = append(names, pick(r, dirNames))
+			}
+			names[r.Intn(len(names))] = oddNames[0]
+		}
+		var argv []string
+		switch via {
+		case "-f":
+			argv = []string{"-f", "prog.jqawk"}
+			if strings.HasPrefix(names[0], "-") || n%3 == 0 {
+				argv = append(argv, "--")
+			}
+		case "dashes":
+			argv = []string{"--", c02NamesProg}
+		default:
+			argv = []string{c02NamesProg}
+		}
+		argv = append(argv, names...)
+		for _, nm := range names {
+			if contents[nm].trace == nil {
+				return // the program text as input: a JSON error, not what this family is about
+			}
+		}
+		want, wantExit := "B\n", "0"
+		for _, nm := range names {
+			if nm == gone {
+				want, wantExit = "", "1" // the inputs are opened before anything runs
+				break
+			}
+			want += contents[nm].trace(nm)
+		}
+		if wantExit == "0" {
+			want += "E\n"
+		}
+		var stdin []byte
+		if withStdin {
+			stdin = []byte("[999]\n")
+		}
+		emit(Case{ID: fmt.Sprintf("names-%d", n), Req: CliReq(argv, stdin, withStdin, disk, ""), Fields: c14CliFields, NonTrivial: c14NT,
+			Meta: metaProg(c02NamesProg, "argv", strings.Join(argv[:len(argv)-len(names)], " ␣ "), "file arguments", strconv.Quote(strings.Join(names, " ␣ ")), "directory", strconv.Quote(strings.Join(dirNames, " ␣ ")),
+				"missing", strconv.Quote(gone), "expected stdout", strconv.Quote(want), "row", order, "col", via),
+			Oracle: func(i Resp) string {
+				if w := c14Basic(i); w != "" {
+					return w
+				}
+				if i["exit"] == "" {
+					return ""
+				}
+				if i["exit"] != wantExit || string(i.Bytes("out")) != want {
+					return fmt.Sprintf("C02: files are processed in command-line order, each exactly as named: file arguments %q: expected status %s and the trace %q, got status %s and %q (stderr %q)",
+						names, wantExit, want, i["exit"], i.Bytes("out"), short(string(i.Bytes("stderr"))))
+				}
+				return ""
+			}})
+	}
+	orders := []string{"alone", "odd-then-sibling", "sibling-then-odd", "between", "twice", "all-odd", "all-odd-reversed", "random"}
+	vias := []string{"inline", "-f", "dashes"}
+	for k := range c02OddNames {
+		for oi, order := range orders {
+			if tier != "thorough" && oi >= 2 && (k+oi)%3 != 0 {
+				continue
+			}
+			odd := []int{k}
+			if strings.HasPrefix(order, "all-odd") {
+				odd = append(odd, (k+7)%len(c02OddNames), (k+19)%len(c02OddNames))
+			}
+			one(odd, order, vias[(k+oi)%3], false, (k+oi)%4 == 0)
+			if tier == "thorough" {
+				one(odd, order, vias[(k+oi+1)%3], false, false)
+			}
+		}
+		one([]int{k}, pick(r, orders[:5]), vias[k%3], true, false)
+	}
+	for k := tierN(tier, 150, 4000); k > 0; k-- {
+		odd := []int{r.Intn(len(c02OddNames))}
+		for chance(r, 0.5) && len(odd) < 4 {
+			odd = append(odd, r.Intn(len(c02OddNames)))
+		}
+		one(odd, pick(r, orders), pick(r, vias), chance(r, 0.08), chance(r, 0.2))
+	}
+}
+
+func init() {
+	register(Family{
+		Name: "literal-file-names", Prop: "C02",
+		Rule: "the real binary with file arguments whose NAMES contain [ ] ? * \\ { } ~ $ blank tab newline , ; = : | & ( ) < > ` ' \" # ! @ % or begin with one or two dashes (66 names: bracket classes and ranges, negated classes, ?, *, **, escaped metacharacters, malformed patterns such as `[`, `[a`, `[]`, brace lists, ~ and $ expansions, word lists, option look-alikes -r -f -o -- -, quoted names, `<stdin>`), each in a directory that also holds the files a pattern / list / option / expansion reading of the name would lead to, and two ordinary files; every file holds different numbers. Command lines: the name alone, before / after one of its siblings, between two ordinary files, twice, three odd names in both orders, random picks from the directory; program inline, after `--`, or through -f (with `--` before a name that begins with a dash); sometimes stdin carries a value that must not be read; a tenth of the cases with the odd name MISSING while its siblings exist (status 1, nothing runs). Oracle (C02): stdout is exactly the trace built from the command line -- B, then per file argument in order and per value BF name / P name index value / EF name, then E -- with the numbers of exactly the named files. Compared with the model of the wrapper (exit, stdout, diagnostic flag), which looks names up literally.",
+		Gen:  c02GenNames,
 	})
 }
